@@ -9,6 +9,10 @@
 import Fca.Model.Duality
 import Fca.Spec.Duality
 import Fca.Lemmas.Duality
+import Fca.Model.DualityStore
+import Fca.Spec.DualityBig
+import Fca.Lemmas.DualityStore
+import Fca.Lemmas.OracleFast
 import Fca.Props.C01
 namespace Fca.C06
 open Fca Fca.Spec Fca.Dual
@@ -363,6 +367,150 @@ theorem order_oracles_sound (f : List (List Nat) → Nat → List Nat) (exts rel
   rw [mem_monoConceptsFast t hwf, isMonoConcept_iff]
   exact ⟨fun ⟨a, b⟩ => ⟨a.symm, b.symm⟩, fun ⟨a, b⟩ => ⟨a.symm, b.symm⟩⟩
 
+
+/-! ### class H6 (near-miss spellings): the name toggle looks at the exact prefix `'not '` and at nothing else -/
+
+/-- `~K` is constructed on every well-formed context: complemented table, the object names of `K`,
+    every attribute name toggled (no hypothesis on the names). -/
+theorem complement_exec (K : Ctx) (h : CtxWF K) (hn : 1 ≤ K.nObjects) :
+    ctxNot K = .ok ⟨K.backend, complement K.table, K.objNames, K.attrNames.map toggleNot⟩ := by
+  unfold ctxNot
+  rw [tableNot_eq_complement K.backend K.table h.wf hn]
+  unfold mkCtx
+  rw [complement_height, complement_width]
+  simp [h.attrs, h.objs, Ctx.nAttributes, Ctx.nObjects] <;> first | exact h.objs | exact h.attrs
+
+/-- the toggle, read without `drop`: a name that starts with exactly `n,o,t,blank` IS `'not '` + its toggle;
+    the toggle of every other name is `'not '` + the name.  Nothing but the exact four-character prefix
+    is looked at. -/
+theorem toggle_exact_prefix (s : String) :
+    (notPrefix <+: s.toList → notPrefix ++ (toggleNot s).toList = s.toList) ∧
+    (¬ notPrefix <+: s.toList → (toggleNot s).toList = notPrefix ++ s.toList) := by
+  rw [toggleNot_toList]
+  exact ⟨toggleL_of_prefix, toggleL_of_not_prefix⟩
+
+/-- near misses: a name whose first four characters are not exactly `'not '` — shorter than four characters
+    (`'not'`, `''`), another capitalisation (`'Not x'`, `'NOT x'`), another separator (`'not_x'`, `'not-x'`,
+    `'not\tx'`, `'notx'`) — gets the prefix, is a valid name (`NameOK`), and toggling twice returns it. -/
+theorem toggle_near_miss (s : String) (h : s.toList.take 4 ≠ notPrefix) :
+    (toggleNot s).toList = notPrefix ++ s.toList ∧ NameOK s ∧ toggleNot (toggleNot s) = s := by
+  have hp : ¬ notPrefix <+: s.toList := by
+    intro hp
+    have := List.prefix_iff_eq_take.mp hp
+    rw [notPrefix_length] at this
+    exact h this.symm
+  exact ⟨(toggle_exact_prefix s).2 hp, nameOK_of_not_prefix hp,
+    (toggleNot_toggleNot_iff s).mpr (nameOK_of_not_prefix hp)⟩
+
+/-- the attribute names of `~K`, position by position: the exact prefix is stripped where it is present and
+    added everywhere else; the object names are those of `K`. -/
+theorem complement_names_exact_prefix (K : Ctx) (h : CtxWF K) (hn : 1 ≤ K.nObjects) :
+    ∃ KN, ctxNot K = .ok KN ∧ KN.objNames = K.objNames ∧ KN.attrNames.length = K.attrNames.length ∧
+      ∀ j, j < K.attrNames.length →
+        (notPrefix <+: (K.attrNames.getD j "").toList →
+          notPrefix ++ (KN.attrNames.getD j "").toList = (K.attrNames.getD j "").toList) ∧
+        (¬ notPrefix <+: (K.attrNames.getD j "").toList →
+          (KN.attrNames.getD j "").toList = notPrefix ++ (K.attrNames.getD j "").toList) := by
+  refine ⟨_, complement_exec K h hn, rfl, by simp, fun j hj => ?_⟩
+  have hg : (K.attrNames.map toggleNot).getD j "" = toggleNot (K.attrNames.getD j "") := by
+    simp [List.getD_eq_getElem?_getD, List.getElem?_map, List.getElem?_eq_getElem hj]
+  show (_ → notPrefix ++ ((K.attrNames.map toggleNot).getD j "").toList = _) ∧
+    (_ → ((K.attrNames.map toggleNot).getD j "").toList = _)
+  rw [hg]
+  exact toggle_exact_prefix _
+
+/-- the near misses used by the harness are outside the prefix (and one exact form is inside) -/
+example : (["Not x", "NOT x", "nOt x", "not_x", "not-x", "not\tx", "notx", "not", "no", "", "not.x", " not x",
+    "not x", "Not not x", "notnot x"].all fun s => decide (s.toList.take 4 ≠ notPrefix)) = true ∧
+    "not x".toList.take 4 = notPrefix ∧ "not ".toList.take 4 = notPrefix ∧ "not not".toList.take 4 = notPrefix := by
+  decide
+
+example : toggleNot "Not x" = "not Not x" ∧ toggleNot "not_x" = "not not_x" ∧ toggleNot "not" = "not not" ∧
+    toggleNot "not not" = "not" ∧ toggleNot "not " = "" ∧ toggleNot "" = "not " ∧ toggleNot "not Not x" = "Not x" ∧
+    NameOK "not not" ∧ NameOK "not  not x" ∧ ¬ NameOK "not not " := by
+  decide
+
+/-! ### class H5 (derived-object independence): context objects are values; a derived object and its source
+    never influence each other after the derivation -/
+
+/-- FRAME PROPERTY.  Whatever happens in a history over a store of context objects — deriving `K.T`, `~K`,
+    `K[rows, cols]` from any object, creating new objects, calling the setters of any object — an object that
+    existed at the start holds at the end exactly what its OWN setter calls (in their order) make of its
+    initial content. -/
+theorem store_independence (S S' : List Ctx) (ops : List HOp) (h : runStore S ops = .ok S')
+    (j : Nat) (K : Ctx) (hK : S[j]? = some K) :
+    ∃ K', applyMuts K (ownMuts j ops) = .ok K' ∧ S'[j]? = some K' :=
+  runStore_frame ops S S' h j K hK
+
+/-- … and an object derived in the middle of a history holds at the end what its own later setter calls make
+    of the derivation of the source's content AT THE MOMENT of the derivation: later changes of the source
+    (or of anything else) do not reach it. -/
+theorem derived_object_independent (S S' : List Ctx) (pre post : List HOp) (src : Nat) (d : Derive)
+    (h : runStore S (pre ++ HOp.derive src d :: post) = .ok S') :
+    ∃ Smid K D D', runStore S pre = .ok Smid ∧ Smid[src]? = some K ∧ derive K d = .ok D ∧
+      applyMuts D (ownMuts Smid.length post) = .ok D' ∧ S'[Smid.length]? = some D' := by
+  rw [runStore_append] at h
+  cases hpre : runStore S pre with
+  | error e => rw [hpre] at h; cases h
+  | ok Smid =>
+    simp only [hpre, runStore, stepStore] at h
+    cases hsrc : Smid[src]? with
+    | none => simp only [hsrc] at h; cases h
+    | some K =>
+      simp only [hsrc] at h
+      cases hd : derive K d with
+      | error e => simp only [hd] at h; cases h
+      | ok D =>
+        simp only [hd] at h
+        obtain ⟨D', h1, h2⟩ := runStore_frame post _ S' h Smid.length D (by simp)
+        exact ⟨Smid, K, D, D', rfl, hsrc, hd, h1, h2⟩
+
+/-- LAST WRITE WINS.  After any sequence of valid setter calls (names of the right length, a table of the same
+    shape) a context holds, field by field, the value of the last assignment to that field (its original
+    value if there was none), and is well-formed with the same shape. -/
+theorem history_last_write_wins (K : Ctx) (h : CtxWF K) (hn : 1 ≤ K.nObjects) (muts : List Mut)
+    (hv : ∀ x ∈ muts, MutValid K.nObjects K.nAttributes x) :
+    applyMuts K muts = .ok (finalCtx K muts) ∧ CtxWF (finalCtx K muts) ∧
+    (finalCtx K muts).nObjects = K.nObjects ∧ (finalCtx K muts).nAttributes = K.nAttributes := by
+  obtain ⟨h1, h2⟩ := applyMuts_final hn muts K ⟨h.wf, rfl, rfl, h.objs, h.attrs⟩ hv
+  exact ⟨h1, ⟨h2.wf, h2.objs.trans h2.h.symm, h2.attrs.trans h2.w.symm⟩, h2.h, h2.w⟩
+
+/-- ASKING AGAIN.  `K.T`, `~K` and `K[π, σ]` are functions of the CURRENT content of `K` only: after any
+    history of renamings / table replacements they are the transposed / complemented / permuted FINAL table
+    with the FINAL names (exchanged / toggled / permuted) — whatever was derived, renamed or asked before. -/
+theorem derive_after_history (K : Ctx) (h : CtxWF K) (hn : 1 ≤ K.nObjects) (hm : 1 ≤ K.nAttributes)
+    (muts : List Mut) (hv : ∀ x ∈ muts, MutValid K.nObjects K.nAttributes x) :
+    applyMuts K muts = .ok (finalCtx K muts) ∧
+    ctxT (finalCtx K muts) = .ok ⟨K.backend, transpose (finalCtx K muts).table,
+      (finalCtx K muts).attrNames, (finalCtx K muts).objNames⟩ ∧
+    ctxNot (finalCtx K muts) = .ok ⟨K.backend, complement (finalCtx K muts).table,
+      (finalCtx K muts).objNames, (finalCtx K muts).attrNames.map toggleNot⟩ ∧
+    ∀ π σ, π.Perm (List.range K.nObjects) → σ.Perm (List.range K.nAttributes) →
+      ctxGet (finalCtx K muts) π σ = .ok ⟨K.backend, permute (finalCtx K muts).table π σ,
+        π.map (fun i => (finalCtx K muts).objNames.getD i ""),
+        σ.map (fun j => (finalCtx K muts).attrNames.getD j "")⟩ := by
+  obtain ⟨h1, hwf, hno, hna⟩ := history_last_write_wins K h hn muts hv
+  refine ⟨h1, ?_, complement_exec _ hwf (by rw [hno]; exact hn), fun π σ hπ hσ => ?_⟩
+  · obtain ⟨KT, e1, e2, e3, e4, e5, _, _⟩ := transpose_swaps_derivations _ hwf (by rw [hna]; exact hm)
+    rw [e1]
+    cases KT
+    simp only at e2 e3 e4 e5
+    subst e2 e3 e4 e5
+    rfl
+  · exact getitem_is_permute _ π σ (by rw [hno]; exact hn) (by rw [hno]; exact hπ) (by rw [hna]; exact hσ)
+
+/-- the oracles used beyond the brute-force scope (64/65, 128/129 objects or attributes) are exact:
+    `allConceptsFast` (enumeration over the smaller side) lists the formal concepts, `monoConceptsFast2`
+    (through the complemented table) the monotone concepts. -/
+theorem big_oracles_sound (t : Table) (hwf : t.WF) (A B : List Nat) :
+    ((A, B) ∈ allConceptsFast t ↔ (A, B) ∈ allConcepts t) ∧
+    ((A, B) ∈ monoConceptsFast2 t ↔ (A = extMonoAll t B ∧ B = intMonoAll t A)) := by
+  refine ⟨by rw [mem_allConceptsFast t hwf, mem_allConcepts], ?_⟩
+  unfold monoConceptsFast2
+  rw [mem_monoConceptsFast2 t hwf allConceptsFast
+    (fun C D => mem_allConceptsFast (complement t) (complement_wf t hwf)), isMonoConcept_iff]
+  exact ⟨fun ⟨a, b⟩ => ⟨a.symm, b.symm⟩, fun ⟨a, b⟩ => ⟨a.symm, b.symm⟩⟩
+
 /-! ### non-vacuity: the hypotheses are met by a concrete, non-trivial context -/
 
 private def exK : Ctx :=
@@ -380,5 +528,36 @@ example : [1, 0].Perm (List.range exK.table.height) ∧ [2, 0, 1].Perm (List.ran
 
 example : (fromContextMonotone exK 7 (specLat (complement exK.table))).pairs
     = [([], []), ([0], [2]), ([1], [1]), ([0, 1], [0, 1, 2])] := by decide
+
+/-- a history over a store: `Kt = K.T`; rename `Kt`; rename `K`; replace `K`'s table; ask `K.T`, `~K` and `Kt.T`
+    again — every object answers for its own current content. -/
+private def exHist : List HOp :=
+  [.derive 0 .T, .set 1 (.objs ["x", "Not y", "not_z"]), .set 0 (.attrs ["not a", "Not b", "not"]),
+   .set 0 (.data [[false, false, true], [true, true, true]]), .derive 0 .T, .derive 0 .not, .derive 1 .T]
+
+private def storeView : Except PyErr (List Ctx) → List (List Row × List String × List String)
+  | .ok S => S.map fun K => (K.table.data, K.objNames, K.attrNames)
+  | .error _ => []
+
+example : storeView (runStore [exK] exHist) =
+    [([[false, false, true], [true, true, true]], ["g0", "g1"], ["not a", "Not b", "not"]),
+     ([[true, true], [false, true], [true, false]], ["x", "Not y", "not_z"], ["g0", "g1"]),
+     ([[false, true], [false, true], [true, true]], ["not a", "Not b", "not"], ["g0", "g1"]),
+     ([[true, true, false], [false, false, false]], ["g0", "g1"], ["a", "not Not b", "not not"]),
+     ([[true, false, true], [true, true, false]], ["g0", "g1"], ["x", "Not y", "not_z"])] := by decide
+
+example : ownMuts 0 exHist = [.attrs ["not a", "Not b", "not"], .data [[false, false, true], [true, true, true]]] ∧
+    (∀ x ∈ ownMuts 0 exHist, MutValid exK.nObjects exK.nAttributes x) := by
+  refine ⟨rfl, ?_⟩
+  intro x hx
+  simp only [exHist, ownMuts] at hx
+  simp at hx
+  rcases hx with rfl | rfl
+  · show ["not a", "Not b", "not"].length = 3
+    rfl
+  · refine ⟨rfl, ?_⟩
+    intro r hr
+    simp at hr
+    rcases hr with rfl | rfl <;> rfl
 
 end Fca.C06
